@@ -452,6 +452,42 @@ func (fr *Frame) panicCheck(kind string, ins ssa.Instruction, st *State, cond *T
 	st.assume(cond)
 }
 
+// guardCheck emits a lock-typestate obligation for an access to a field declared `spec guarded ... by g`:
+// reads need g >= 1, writes need g == 2. Only in functions whose contract says `safety[..] locks`.
+func (fr *Frame) guardCheck(write bool, ins ssa.Instruction, a *Addr, st *State) {
+	if a == nil || a.Kind != AField || fr.dryMode() {
+		return
+	}
+	g, ok := fr.run.eng.contracts.Guarded[a.Key]
+	if !ok {
+		return
+	}
+	tags, on := fr.safetyOn("locks")
+	if !on {
+		return
+	}
+	kind := "guard.read"
+	if write {
+		kind = "guard.write"
+	}
+	m := fr.ordinals[kind]
+	if m == nil {
+		m = map[ssa.Instruction]int{}
+		fr.ordinals[kind] = m
+	}
+	if _, seen := m[ins]; !seen {
+		m[ins] = len(m) + 1
+	}
+	lock := st.H("ghost:"+g, SInt)
+	cond := Ge(lock, IntLit(1))
+	text := "read of " + a.Key[2:] + " needs the lock (" + g + " >= 1)"
+	if write {
+		cond = Eq(lock, IntLit(2))
+		text = "write of " + a.Key[2:] + " needs the write lock (" + g + " == 2)"
+	}
+	fr.oblige(kind, m[ins], "", tags, st, cond, text, ins.Pos())
+}
+
 // ---------- execution
 
 type execResult struct {
@@ -469,9 +505,23 @@ func (fr *Frame) exec(st *State, args []Val) (*State, Val) {
 	for i, p := range fn.Params {
 		fr.regs[p] = args[i]
 	}
-	for i, fv := range fn.FreeVars {
-		_ = i
-		_ = fv
+	for _, fv := range fn.FreeVars {
+		if _, bound := fr.regs[fv]; bound || !fr.top {
+			continue // inlined closure: bound by the caller
+		}
+		// a function literal verified on its own: each captured variable is a cell with an arbitrary
+		// well-typed value (the enclosing function's state is not known here)
+		pt, ok := fv.Type().(*types.Pointer)
+		if !ok {
+			continue
+		}
+		c := &ssa.Alloc{Comment: "$free." + fv.Name()}
+		cellID(c)
+		v := freshVal("fv_"+fv.Name(), pt.Elem())
+		st.assume(wellTyped(v, st))
+		st.assumeAllocated(v)
+		st.cells[c] = v
+		fr.regs[fv] = Val{K: KAddr, T: fv.Type(), A: &Addr{Kind: ACell, Cell: c, T: pt.Elem()}}
 	}
 	// defer flags
 	for _, b := range fn.Blocks {
@@ -823,6 +873,7 @@ func (fr *Frame) storeTo(ins ssa.Instruction, addr Val, v Val, st *State) {
 		if addr.A.Kind == ACell {
 			fr.atHook("store", addr.A.Cell.Comment, ins, st)
 		}
+		fr.guardCheck(true, ins, addr.A, st)
 		st.store(addr.A, coerce(v, addr.A.T))
 		if addr.A.Kind == ACell {
 			fr.atHook("stored", addr.A.Cell.Comment, ins, st)
@@ -858,6 +909,7 @@ func (fr *Frame) execUnOp(x *ssa.UnOp, st *State) Val {
 	case token.MUL:
 		switch v.K {
 		case KAddr:
+			fr.guardCheck(false, x, v.A, st)
 			return st.load(v.A)
 		case KScalar:
 			et, _ := derefStruct(v.T)
